@@ -232,14 +232,14 @@ fn boundedness(v: &V, wave: Wave, l: usize, seed: u64, out: &mut TrialOut) {
             worst = worst.max(o.abs());
             if t < 4 * l {
                 worst_early = worst_early.max(o.abs());
-            } else if o.abs() > 4.0 * worst_early + 1e-9 {
+            } else if o.abs() > 2.5 * worst_early + 1e-9 {
                 out.cell(&cell, 1);
                 out.violation(
                     v.name,
                     "bound-independent-of-length",
                     "any",
                     format!(
-                        "{} at f64: input {:?} bounded by 1 (seed {}), step {}: |output| {:e} exceeds 4 x the largest magnitude {:e} seen during the first {} updates: the output range grows with the stream length",
+                        "{} at f64: input {:?} bounded by 1 (seed {}), step {}: |output| {:e} exceeds 2.5 x the largest magnitude {:e} seen during the first {} updates: the output range grows with the stream length",
                         v.spec.show(),
                         wave,
                         seed,
